@@ -458,7 +458,7 @@ var c10OptSets = []syntax.RegexOptions{
 var c10Corpus = []string{
 	// alternation, groups, lookaround, atomic, inline options, comments
 	``, `a`, `ab|cd`, `a|b|c`, `a|bc|d|[x-z]|\d`, `(a)`, `(a)(b)`, `(?:a)`, `(?:ab|cd)e`, `(?<n>a)`, `(?'n'a)`, `(?<2>a)(b)`, `(?<n>a)(b)\k<n>\1\2`, `(a)\1`, `\k<1>(a)`,
-	`(?=a)b`, `(?!a)b`, `(?<=a)b`, `(?<!ab)c`, `(?<=a|bc)d`, `(?>a)`, `(?>a*)b`, `(?>(?>a+))`, `(?>a|b)`, `(?>ab|cd)`, `(?>)`, `(?=)`, `(?!)`, `(?i)a`, `(?i:a)b`, `a(?i)b(?-i)c`, `(?imnsx-imnsx:a)`,
+	`(?=a)b`, `(?!a)b`, `(?<=a)b`, `(?<!ab)c`, `(?<=a|bc)d`, `(?>a)`, `(?>a*)b`, `(?>.*)a`, `(?>[^a]+)b`, `(?>[ab]*)c`, `(?>.+?)a`, `(?>[ab]{2,}?)`, `(?>\d*)`, `(?>(?>a+))`, `(?>a|b)`, `(?>ab|cd)`, `(?>)`, `(?=)`, `(?!)`, `(?i)a`, `(?i:a)b`, `a(?i)b(?-i)c`, `(?imnsx-imnsx:a)`,
 	`(?x) a b # c` + "\n" + ` d`, `(?x: a b )c d`, `(?#comment)a`, `a(?#c)*`, `a(?#c`, `(?n)(a)(?<x>b)`, `(?s).`, `(?m)^a$`, `(?i)[a-c]x`, `((a)|b)*`, `(a|b)+?`, `(?:a|b|)c`, `()`, `(|a)`, `a||b`, `|`, `(?:)`, `(?:)*`,
 	// quantifiers
 	`a*`, `a+`, `a?`, `a{2}`, `a{2,}`, `a{2,3}`, `a*?`, `a+?`, `a??`, `a{2}?`, `a{2,}?`, `a{2,3}?`, `a{0}`, `a{1}`, `a{0,0}`, `a{1,1}`, `a{65}`, `a{64}`, `ab*`, `ab{3}`, `(ab)*`, `(ab){2,3}`, `(?:a*)*`, `(?:a+)?`, `(?:a{2}){3}`,
